@@ -147,6 +147,10 @@ func (inst *instance) DrainListeners() {
 	})
 }
 
+// ShutdownLocalConf shutdowns the local conf store. This version keeps no local
+// conf store, so there is nothing to stop; the request is still acknowledged.
+func (inst *instance) ShutdownLocalConf() {}
+
 // Shutdown shutdowns the instance.
 func (inst *instance) Shutdown() {
 	inst.admin.Stop()
